@@ -64,7 +64,7 @@ func (b *Bundle) NameFeature(class, role string) {
 	}
 }
 
-var CollisionKinds = []string{"exact", "case", "several", "generatedName", "oaigenTaken", "oaigen1Taken", "paramsBodyTaken", "twoImportsSameName", "caseTwinsInline", "prefixNames", "anonPointerNameTaken", "anonPointerSymbolsKey", "opKeyTwins", "opKeyTwinsWithID", "dupOperationIds", "prefixNamesRemoteRecursive", "mangleTwinsInline", "manyMembers", "generatedNamesPresent", "pathWithoutOperations", "anonPointerPrefixSibling", "deepOnlyReferrer", "twoSpellingsTwoFiles", "mergedBackNameTaken", "oaigenNamesTaken"}
+var CollisionKinds = []string{"exact", "case", "several", "generatedName", "oaigenTaken", "oaigen1Taken", "paramsBodyTaken", "twoImportsSameName", "caseTwinsInline", "prefixNames", "anonPointerNameTaken", "anonPointerSymbolsKey", "opKeyTwins", "opKeyTwinsWithID", "dupOperationIds", "prefixNamesRemoteRecursive", "mangleTwinsInline", "manyMembers", "generatedNamesPresent", "pathWithoutOperations", "anonPointerPrefixSibling", "deepOnlyReferrer", "twoSpellingsTwoFiles", "mergedBackNameTaken", "oaigenNamesTaken", "oaigenCaseTaken", "caseTwinDocuments"}
 
 // KeywordNames: definition and property names that are also keywords of the schema model or words the namer treats specially.
 var KeywordNames = []string{"schema", "not", "anyOf", "oneOf", "allOf", "properties", "items", "additionalProperties", "definitions", "parameters", "responses", "paths", "body", "default", "0"}
@@ -106,6 +106,27 @@ func (b *Bundle) Collision(kind string) {
 		use(b.Def("item"+k+"OAIGen", b.Obj()))
 		b.AuxDef("sub/a.json", "item"+k, b.Obj())
 		use("sub/a.json#/definitions/item" + k)
+	case "caseTwinDocuments":
+		// two auxiliary documents whose paths differ by letter case only, each with a same-named definition
+		n := "Ct" + k
+		b.AuxDef("sub/Models"+k+".json", n, b.refFreeSchema("object"))
+		b.AuxDef("sub/models"+k+".json", n, b.refFreeSchema("object"))
+		use(b.Def("ctHolder"+k, jx.Obj{"type": "object", "description": b.lbl("ct"), "properties": jx.Obj{
+			"first":  jx.Obj{"$ref": "sub/Models" + k + ".json#/definitions/" + n},
+			"second": jx.Obj{"$ref": "sub/models" + k + ".json#/definitions/" + n}}}))
+		b.Tag("multi-doc")
+	case "oaigenCaseTaken":
+		// the suffixed candidates are taken too, up to letter case
+		use(b.Def("item"+k, b.refFreeSchema("object")))
+		use(b.Def("ITEM"+k+"oaigen", b.refFreeSchema("object")))
+		use(b.Def("Item"+k+"OAIGEN1", b.refFreeSchema("object")))
+		b.AuxDef("sub/a.json", "item"+k, b.refFreeSchema("object"))
+		use("sub/a.json#/definitions/item" + k)
+		// and for a name generated from a property path
+		use(b.Def("pet"+k, jx.Obj{"type": "object", "description": b.lbl("pc"), "properties": jx.Obj{"owner": b.Obj()}}))
+		use(b.Def("pet"+k+"Owner", b.refFreeSchema("object")))
+		use(b.Def("pet"+k+"ownerOAIGen", b.refFreeSchema("object")))
+		b.Tag("multi-doc")
 	case "oaigen1Taken":
 		use(b.Def("elem"+k, b.Obj()))
 		use(b.Def("elem"+k+"OAIGen", b.Obj()))
